@@ -203,54 +203,225 @@ def box_new(ex, st, info, args):
 
 
 # ------------------------------------------------------------------------------------------ time
+# SystemTime / Instant / Duration = (seconds: u64, nanoseconds: u32 < 10^9).  No multiplication or division is needed
+# for now() / elapsed() / from_secs() / as_secs() / comparisons, which keeps clock arithmetic cheap for the solver.
+NS = 1000000000
+
+
+def t_parts(v):
+    return to_bv(v.f[0]), to_bv(v.f[1])
+
+
+def t_mk(ty, s, n):
+    s, n = z3.simplify(s), z3.simplify(n)
+    return Struct(ty, (Int('u64', s.as_long() if z3.is_bv_value(s) else s), Int('u32', n.as_long() if z3.is_bv_value(n) else n)))
+
+
+def t_lt(a, b):
+    (as_, an), (bs_, bn) = a, b
+    return z3.Or(z3.ULT(as_, bs_), z3.And(as_ == bs_, z3.ULT(an, bn)))
+
+
+def t_le(a, b):
+    return z3.Not(t_lt(b, a))
+
+
+def t_eq(a, b):
+    return z3.And(a[0] == b[0], a[1] == b[1])
+
+
+def t_sub(a, b):
+    """a - b for a >= b"""
+    (as_, an), (bs_, bn) = a, b
+    borrow = z3.ULT(an, bn)
+    return (z3.If(borrow, as_ - bs_ - 1, as_ - bs_), z3.If(borrow, an + z3.BitVecVal(NS, 32) - bn, an - bn))
+
+
+def t_add(a, b):
+    (as_, an), (bs_, bn) = a, b
+    n = an + bn                                  # < 2 * 10^9 < 2^32
+    carry = z3.UGE(n, z3.BitVecVal(NS, 32))
+    s1 = as_ + bs_
+    s2 = z3.If(carry, s1 + 1, s1)
+    ovf = z3.Or(z3.ULT(s1, as_), z3.ULT(s2, s1))
+    return (s2, z3.If(carry, n - z3.BitVecVal(NS, 32), n)), ovf
+
+
+def clock_reading(k):
+    return (z3.BitVec('now!%d_s' % k, 64), z3.BitVec('now!%d_n' % k, 32))
+
+
 def _now(st):
     k = st.env.get('clock_n', 0)
-    t = z3.BitVec('now!%d' % k, 128)
+    t = clock_reading(k)
     prev = st.env.get('clock_last')
     mode = st.env.get('clock_mode', 'monotone')
-    st.pc.append(z3.ULT(t, z3.BitVecVal(1 << 100, 128)))
+    st.pc.append(z3.ULT(t[0], z3.BitVecVal(1 << 62, 64)))
+    st.pc.append(z3.ULT(t[1], z3.BitVecVal(NS, 32)))
     if prev is not None and mode == 'monotone':
-        st.pc.append(z3.UGE(t, prev))
+        st.pc.append(t_le(prev, t))
     st.env['clock_n'] = k + 1
     st.env['clock_last'] = t
     return t
 
 
-@B.path('SystemTime::now')
+def _tv(ex, st, v):
+    return deref_all(ex, st, v)
+
+
+@B.path('SystemTime::now', 'Instant::now')
 def systemtime_now(ex, st, info, args):
-    return Struct('SystemTime', (Int('u128', _now(st)),))
+    ty = 'Instant' if 'Instant' in info['path'] else 'SystemTime'
+    return t_mk(ty, *_now(st))
 
 
 @B.path('SystemTime::elapsed')
 def systemtime_elapsed(ex, st, info, args):
-    t = deref_all(ex, st, args[0]).f[0]
+    t = t_parts(_tv(ex, st, args[0]))
     now = _now(st)
-    tb = to_bv(t)
-    ok = z3.UGE(now, tb)
-    return Choices([(ok, lambda s2: mk_ok(Struct('Duration', (Int('u128', now - tb),)))),
-                    (z3.Not(ok), lambda s2: mk_err(Struct('SystemTimeError', (Struct('Duration', (Int('u128', tb - now),)),))))])
+    ok = t_le(t, now)
+    return Choices([(ok, lambda s2: mk_ok(t_mk('Duration', *t_sub(now, t)))),
+                    (z3.Not(ok), lambda s2: mk_err(Struct('SystemTimeError', (t_mk('Duration', *t_sub(t, now)),))))])
+
+
+@B.path('Instant::elapsed')
+def instant_elapsed(ex, st, info, args):
+    t = t_parts(_tv(ex, st, args[0]))
+    now = _now(st)
+    ok = t_le(t, now)
+    return Choices([(ok, lambda s2: t_mk('Duration', *t_sub(now, t))),
+                    (z3.Not(ok), lambda s2: t_mk('Duration', z3.BitVecVal(0, 64), z3.BitVecVal(0, 32)))])
+
+
+@B.path('SystemTime::duration_since')
+def systemtime_duration_since(ex, st, info, args):
+    a = t_parts(_tv(ex, st, args[0]))
+    b = t_parts(_tv(ex, st, args[1]))
+    ok = t_le(b, a)
+    return Choices([(ok, lambda s2: mk_ok(t_mk('Duration', *t_sub(a, b)))),
+                    (z3.Not(ok), lambda s2: mk_err(Struct('SystemTimeError', (t_mk('Duration', *t_sub(b, a)),))))])
+
+
+@B.path('Instant::duration_since', 'Instant::saturating_duration_since')
+def instant_duration_since(ex, st, info, args):
+    a = t_parts(_tv(ex, st, args[0]))
+    b = t_parts(_tv(ex, st, args[1]))
+    ok = t_le(b, a)
+    return Choices([(ok, lambda s2: t_mk('Duration', *t_sub(a, b))),
+                    (z3.Not(ok), lambda s2: t_mk('Duration', z3.BitVecVal(0, 64), z3.BitVecVal(0, 32)))])
+
+
+@B.path('SystemTimeError::duration')
+def systemtimeerror_duration(ex, st, info, args):
+    return _tv(ex, st, args[0]).f[0]
 
 
 @B.path('Duration::from_secs')
 def duration_from_secs(ex, st, info, args):
-    s = args[0]
-    if s.concrete:
-        return Struct('Duration', (Int('u128', s.v * 1000000000),))
-    return Struct('Duration', (Int('u128', z3.ZeroExt(64, s.v) * z3.BitVecVal(1000000000, 128)),))
+    return t_mk('Duration', to_bv(args[0]), z3.BitVecVal(0, 32))
+
+
+def _dur_from(name, per_sec):
+    def f(ex, st, info, args):
+        x = to_bv(args[0])
+        x = z3.ZeroExt(64 - x.size(), x) if x.size() < 64 else z3.Extract(63, 0, x)
+        d = z3.BitVecVal(per_sec, 64)
+        return t_mk('Duration', z3.UDiv(x, d), z3.Extract(31, 0, z3.URem(x, d) * z3.BitVecVal(NS // per_sec, 64)))
+    B.paths['Duration::' + name] = f
+
+
+_dur_from('from_millis', 1000)
+_dur_from('from_micros', 1000000)
+_dur_from('from_nanos', NS)
+
+
+@B.path('Duration::new')
+def duration_new(ex, st, info, args):
+    s, n = to_bv(args[0]), to_bv(args[1])
+    extra = z3.UDiv(n, z3.BitVecVal(NS, 32))
+    s2 = s + z3.ZeroExt(32, extra)
+    bad = z3.ULT(s2, s)
+    r = t_mk('Duration', s2, z3.URem(n, z3.BitVecVal(NS, 32)))
+    bad = z3.simplify(bad)
+    if z3.is_false(bad):
+        return r
+    return Choices([(bad, lambda s3: Panic('overflow in Duration::new')), (z3.Not(bad), lambda s3: r)])
+
+
+@B.path('Duration::as_secs')
+def duration_as_secs(ex, st, info, args):
+    return _tv(ex, st, args[0]).f[0]
+
+
+@B.path('Duration::subsec_nanos')
+def duration_subsec_nanos(ex, st, info, args):
+    return _tv(ex, st, args[0]).f[1]
+
+
+def _dur_as(name, per_sec):
+    def f(ex, st, info, args):
+        s, n = t_parts(_tv(ex, st, args[0]))
+        v = z3.ZeroExt(64, s) * z3.BitVecVal(per_sec, 128) + z3.ZeroExt(96, z3.UDiv(n, z3.BitVecVal(NS // per_sec, 32)))
+        v = z3.simplify(v)
+        return Int('u128', v.as_long() if z3.is_bv_value(v) else v)
+    B.paths['Duration::' + name] = f
+
+
+_dur_as('as_millis', 1000)
+_dur_as('as_micros', 1000000)
+_dur_as('as_nanos', NS)
+
+
+@B.path('Duration::subsec_millis')
+def duration_subsec_millis(ex, st, info, args):
+    n = to_bv(_tv(ex, st, args[0]).f[1])
+    return mk_int('u32', z3.UDiv(n, z3.BitVecVal(1000000, 32)))
+
+
+@B.path('Duration::is_zero')
+def duration_is_zero(ex, st, info, args):
+    s, n = t_parts(_tv(ex, st, args[0]))
+    return mk_bool(z3.simplify(z3.And(s == 0, n == 0)))
+
+
+@B.path('Duration::as_secs_f64', 'Duration::as_secs_f32')
+def duration_as_secs_f(ex, st, info, args):
+    raise ExecError('Duration::as_secs_f64 is not modelled')
+
+
+def _time_add(sign):
+    def f(ex, st, info, args):
+        t = _tv(ex, st, args[0])
+        d = _tv(ex, st, args[1])
+        a, b = t_parts(t), t_parts(d)
+        if sign > 0:
+            r, bad = t_add(a, b)
+            msg = 'overflow when adding duration to instant'
+        else:
+            r, bad = t_sub(a, b), t_lt(a, b)
+            msg = 'overflow when subtracting duration from instant'
+        return Choices([(bad, lambda s2: Panic(msg)), (z3.Not(bad), lambda s2: t_mk(t.ty, *r))])
+    return f
+
+
+_TIME_TYS = ('SystemTime', 'Duration', 'Instant')
+B.traits.setdefault(('Add', 'add'), []).append((lambda info: type_key(info['selfty']) in _TIME_TYS, _time_add(1)))
+B.traits.setdefault(('Sub', 'sub'), []).append((lambda info: type_key(info['selfty']) in _TIME_TYS, _time_add(-1)))
 
 
 def _dur_cmp(op):
     def f(ex, st, info, args):
-        a = deref_all(ex, st, args[0]).f[0]
-        b = deref_all(ex, st, args[1]).f[0]
-        return int_binop(op, a, b)
+        a = t_parts(_tv(ex, st, args[0]))
+        b = t_parts(_tv(ex, st, args[1]))
+        r = {'Lt': lambda: t_lt(a, b), 'Le': lambda: t_le(a, b), 'Gt': lambda: t_lt(b, a), 'Ge': lambda: t_le(b, a),
+             'Eq': lambda: t_eq(a, b)}[op]()
+        return mk_bool(z3.simplify(r))
     return f
 
 
-B.traits.setdefault(('PartialOrd', 'lt'), []).append((lambda info: type_key(info['selfty']) == 'Duration', _dur_cmp('Lt')))
-B.traits.setdefault(('PartialOrd', 'le'), []).append((lambda info: type_key(info['selfty']) == 'Duration', _dur_cmp('Le')))
-B.traits.setdefault(('PartialOrd', 'gt'), []).append((lambda info: type_key(info['selfty']) == 'Duration', _dur_cmp('Gt')))
-B.traits.setdefault(('PartialOrd', 'ge'), []).append((lambda info: type_key(info['selfty']) == 'Duration', _dur_cmp('Ge')))
+for _k, _op in (('lt', 'Lt'), ('le', 'Le'), ('gt', 'Gt'), ('ge', 'Ge')):
+    B.traits.setdefault(('PartialOrd', _k), []).append((lambda info: type_key(info['selfty']) in _TIME_TYS, _dur_cmp(_op)))
+B.traits.setdefault(('PartialEq', 'eq'), []).insert(0, (lambda info: type_key(info['selfty']) in _TIME_TYS, _dur_cmp('Eq')))
 
 
 # ------------------------------------------------------------------------------------------ tracing
